@@ -69,9 +69,15 @@ SHAPES = {
     'regq1_late': {'entries': ['b', 'b.q'], 'late': True},
     # the watched register sits in a sub-block with its own (ungated) clock driver, served before the recorder's domain
     'regq4_domain': {'entries': ['a.qport', 'a', 'a.q'], 'W': 4, 'domain': True},
+    # '<x>.gq' = output of a Reg fed by x whose OWN (leaf-level) clock driver is enabled by x: a gated cell next to the recorder
+    'leafgate1': {'entries': ['b', 'b.gq']},
+    'leafgate4': {'entries': ['a.gq', 'a'], 'W': 4},
 }
 
-RULE = ('one prefix tree per (watch-list shape, mode); mode split = every sequence of (value, n) calls clk(n) with the '
+RULE = ('mode rerender (shapes w1, w4, regq1, alias4, dup1): every clk(1) history h1 of 0..L cycles, one rendering (default or '
+        'shortNames) as an observation, optionally clear() or clk(0), every history h2 of 0..L cycles with NO observation in '
+        'between, then the full check - each of these on a freshly built system (an observation must not influence later ones). '
+        'Otherwise one prefix tree per (watch-list shape, mode); mode split = every sequence of (value, n) calls clk(n) with the '
         'value held, total cycles 0..L; mode special = every clk(1) history of length 0..L with one clear() or clk(0) '
         'inserted at every position; mode plain = every clk(1) history; every node of the tree is one evaluation '
         '(getDict + decoded get_wavedrom against the reference per-cycle log); a history is non-trivial when some '
@@ -88,7 +94,9 @@ ASSUMPTIONS = [
     'the WaveJSON decoder in mc/refmodels/wave.py is trusted',
 ]
 BOUNDS = {
-    'quick': 'single-wire shapes (widths 1,2,4,33; duplicate; InPort; OutPort; wire+InPort+OutPort alias; Reg output): '
+    'quick': 'rerender: h1, h2 of 0..3 cycles (thorough 0..4); single-wire shapes (widths 1,2,4,33; duplicate; InPort; OutPort; '
+             'wire+InPort+OutPort alias; Reg output; Reg in its own clock domain; Reg with its own gated leaf-level clock driver; '
+             'recorder created after a first getSimulator()): '
              'all histories of 0..5 cycles over the wire alphabet, all clk(n) splittings, one clear()/clk(0) at every '
              'position; mixed 1-bit/4-bit shapes: joint histories 0..5 cycles (8 joint values per cycle) with '
              'splittings and clear/clk(0)',
@@ -98,11 +106,14 @@ BOUNDS = {
 }
 
 JOINT = ('mixed_ba', 'mixed_ab', 'mixed_all')
+RERENDER = ('w1', 'w4', 'regq1', 'alias4', 'dup1')
 
 
 def _jobs(tier):
     T = tier == 'thorough'
     out = []
+    for s in RERENDER:
+        out.append({'shape': s, 'mode': 'rerender', 'L': 4 if T else 3, 'P': 0})
     for s in SHAPES:
         if SHAPES[s].get('bare'):
             out.append({'shape': s, 'mode': 'split', 'L': 2, 'P': 0})
@@ -145,6 +156,8 @@ def cost(d):
     _, alpha = alphabet(d['shape'])
     A = len(alpha)
     free = max(0, d['L'] - len(d['prefix']))
+    if d['mode'] == 'rerender':
+        return 4 * (A ** (d['L'] + 1)) ** 2
     return (A + (1 if d['mode'] == 'split' else 0)) ** free * (2 * d['L'] if d['mode'] == 'special' else 1)
 
 
@@ -185,6 +198,10 @@ def build(shape):
                 regs[b] = py4hw.Reg(g, 'reg_' + b, w, aux['q' + b])
             else:
                 regs[b] = py4hw.Reg(hw, 'reg_' + b, w, aux['q' + b])
+        if b + '.gq' in kinds:
+            aux['g' + b] = hw.wire('g' + b, w.getWidth())
+            regs['g' + b] = py4hw.Reg(hw, 'greg_' + b, w, aux['g' + b])
+            regs['g' + b].clockDriver = py4hw.ClockDriver('gclk_' + b, base=hw.clockDriver, enable=w)
     objs, wires, specs = [], [], []
     for e in sp['entries']:
         b, _, k = e.partition('.')
@@ -198,6 +215,8 @@ def build(shape):
             o, w = aux['q' + b], aux['q' + b]
         elif k == 'qport':
             o, w = regs[b].outPorts[0], aux['q' + b]
+        elif k == 'gq':
+            o, w = aux['g' + b], aux['g' + b]
         else:
             raise ValueError(e)
         if k in ('in', 'out', 'qport') and o.wire is not w:
@@ -222,6 +241,16 @@ def apply(c, act, sanity=True):
     if act[0] == 'clear':
         c.wf.clear()
         c.start = len(c.hist[c.bases[0]])
+        return
+    if act[0] == 'render':
+        # an observation in the middle of a history (mode rerender): one rendering (default, or shortNames=True), result discarded
+        try:
+            if len(act) > 1:
+                c.wf.get_wavedrom(shortNames=True)
+            else:
+                c.wf.get_wavedrom()
+        except Exception:
+            pass
         return
     if act[0] == 'clk0':
         v = c.alpha[-1]
@@ -378,6 +407,8 @@ def run_path(shape, path):
 def run_shard(d):
     # forked workers share the parent's heap copy-on-write; keep the cyclic GC from touching (= copying) it
     gc.freeze()
+    if d['mode'] == 'rerender':
+        return _rerender(d)
     R = _walk(d, d['L'])
     if R['violations'] and not d.get('min_len'):
         # shorten the counterexamples: the same walk with smaller cycle bounds, shortest bound that shows each sig wins
@@ -390,6 +421,45 @@ def run_shard(d):
             if len(short) == len(todo):
                 break
         R['violations'] = [short.get(v['sig'], v) for v in R['violations']]
+    return R
+
+
+def _rerender(d):
+    """every history h1 (0..L cycles), an observation (both renderings), optionally clear(), every history h2 (0..L cycles)
+    WITHOUT observations in between, then the full check: an observation must not influence later ones."""
+    core.reset_prepared()
+    shape, L = d['shape'], d['L']
+    _, alpha = alphabet(shape)
+    A = range(len(alpha))
+    R = {'evaluations': 0, 'distinct_nontrivial': 0, 'traces_validated_against_impl': 0, 'configs': 1,
+         'violations': [], 'samples': [], 'capped': False}
+    best = {}
+    outcomes = set()
+    hists = [h for n in range(L + 1) for h in itertools.product(A, repeat=n)]
+    for h1 in hists:
+        for mid in ((('render',), ('clear',)), (('render',),), (('render', 1), ('clear',)), (('render',), ('clk0',))):
+            for h2 in hists:
+                path = [('s', i, 1) for i in h1] + list(mid) + [('s', i, 1) for i in h2]
+                c = run_path(shape, path)
+                bad, wd = check_node(c, short_too=True)
+                R['evaluations'] += 1
+                R['traces_validated_against_impl'] += 1
+                if len(outcomes) < 50:
+                    outcomes.add(repr(_lanes(wd)))
+                ex = expected_lanes(c)
+                if any(l[i] != l[i + 1] for l in ex for i in range(len(l) - 1)):
+                    R['distinct_nontrivial'] += 1
+                    if len(R['samples']) < 1 and len(h2) == L and len(mid) > 1:
+                        R['samples'].append({'shape': shape, 'entries': SHAPES[shape]['entries'], 'path': [list(a) for a in path],
+                                             'recorded': ex, 'wavedrom': _lanes(wd)})
+                for what, det in bad:
+                    if what not in best or len(path) < best[what][0]:
+                        det = dict(det)
+                        det['entries'] = SHAPES[shape]['entries']
+                        best[what] = (len(path), {'sig': 'C15:%s:%s' % (shape, what), 'shard': d,
+                                                  'trace': [list(a) for a in path], 'detail': det})
+    R['violations'] = [v for _, v in sorted(best.values(), key=lambda x: x[1]['sig'])]
+    R['distinct_outcomes'] = len(outcomes)
     return R
 
 
